@@ -171,6 +171,14 @@ def main(P, argv):
     known = V.known_findings(prop)
     listed = {k["class"] for k in known}
 
+    def listed_of(Q):
+        # a further engine that re-uses the check of ANOTHER property (`known_of`) inherits that property's recorded
+        # classes: they are findings of that property, reported there; here they only must fail in the recorded way
+        if Q is P:
+            return listed
+        other = getattr(Q, "known_of", None)
+        return {k["class"] for k in V.known_findings(other)} if other else set()
+
     coverage = dict(obligations=proof["obligations"], discharged=proof["discharged"],
                     checker_cmd=proof["checker_cmd"], trusted_base=P.trusted_base,
                     theorems=proof["theorems"], print_assumptions=proof["assumptions"],
@@ -237,7 +245,7 @@ def main(P, argv):
     viol, corr, known_seen = [], [], {}
     for Q, qcases, qo in parts:
         for c in qcases:
-            k, s, cls = worst(qo.rows.get(c["id"], []), listed if Q is P else set())
+            k, s, cls = worst(qo.rows.get(c["id"], []), listed_of(Q))
             kinds[k] = kinds.get(k, 0) + 1
             if k == "viol":
                 viol.append((c, s, cls, Q))
@@ -280,7 +288,7 @@ def main(P, argv):
 
     def report_violation(c, s, cls, Q=P):
         r0 = o.results.get(c["id"]) if Q is P else None
-        small = shrink(Q, bin_of(Q), c, "viol", s, listed if Q is P else set(), deadline=deadline,
+        small = shrink(Q, bin_of(Q), c, "viol", s, listed_of(Q), deadline=deadline,
                        orig_panicked=(not isinstance(r0, dict)) or "harness_panic" in r0)
         small["id"] = 0
         o2 = evaluate(Q, bin_of(Q), [small])
